@@ -47,12 +47,16 @@ EXTENDS Integers, Sequences, FiniteSets, TLC, Json
 CONSTANTS Dev,        \* subset of AllDev
           Names,      \* set of [abs: BOOLEAN, segs: Seq(Seg)]
           CMapSites,  \* subset of {"enc", "cmapname", "usecmap", "regord"}
-          ImageCases  \* set of [init: subset of {-1, 0, 1}, draws: 1..2] for the image site ({} = site not explored)
+          ImageCases  \* set of [init: subset of {-1, 0, 1}, draws: 1..2, ext, src] for the image site ({} = not explored)
+                      \*   ext: how the image dictionary fills the file name's extension (see ExtKinds)
+                      \*   src: "xobj" (the name is the document's XObject key) | "inline" (the name is not the document's)
 
 AllDev == {"CMapNameUnconfined",     \* _load_data joins the name unchecked: any *.pickle.gz can be opened (and unpickled)
            "ImageNameUnconfined",    \* _create_unique_image_name joins the XObject name unchecked
            "ScreenBeforeStrip",      \* containment only tested for names that LOOK dangerous (absolute / contain ..),
                                      \* judged on the raw name before its NULs are removed
+           "ExtFieldsUnvalidated",   \* _save_raw builds the extension ".<bits>.<width>x<height>.img" from the image dictionary's
+                                     \* entries without insisting that they are integers (%s instead of %d)
            "CheckedAgainstOneDirectory",  \* the name is validated once, against the package's cmap directory, and then
                                      \* joined onto every directory of the search path
            "ContainmentByCharacters"}   \* "inside the directory" decided on the characters of the real path (startswith /
@@ -145,7 +149,7 @@ FileWord(w) == CASE w \in {"H", "evil"} -> w
 (* (separators and NUL in the name are replaced).                          *)
 (***************************************************************************)
 Init ==
-  /\ \/ site \in CMapSites /\ icase = [init |-> {}, draws |-> 0]
+  /\ \/ site \in CMapSites /\ icase = [init |-> {}, draws |-> 0, ext |-> "bmp", src |-> "xobj"]
      \/ site = "image" /\ icase \in ImageCases
   /\ name \in Names
   /\ phase = "start" /\ dirs = <<>> /\ reads = {} /\ creates = <<>> /\ outfiles = {} /\ drawn = 0
@@ -206,22 +210,51 @@ Target == IF Coded THEN ParentDir(Out, name) ELSE Out
 \* first candidate index that does not exist: -1 (name.ext), 0 (name.0.ext), 1, 2 ...
 FirstFree(S) == IF -1 \notin S THEN -1 ELSE CHOOSE k \in 0..3 : k \notin S /\ \A j \in 0..(k - 1) : j \in S
 
+(* The file name is  sanitised-name ++ extension.  The extension is ".bmp" on the bitmap route; on the "unknown    *)
+(* encoding" route (_save_raw) it is "." bits "." width "x" height ".img", and bits/width/height are whatever the   *)
+(* image dictionary holds.  ExtKinds = how that text looks:                                                        *)
+(*   bmp, raw, neg, csill   integers (neg: negative ones; csill: ill-typed /ColorSpace sends an 8-bit image here)    *)
+(*   filterill              unknown /Filter name: bitmap route, the file is opened, then decoding fails             *)
+(*   illclean               an entry that is not a number but renders without a path separator (an array of ints)  *)
+(*   lead1                  bits is a NAME: it renders as /'x' - the extension STARTS with ". /" so the first path  *)
+(*                          component is  name ++ "."  ("." ++ "." = "..", "" ++ "." = ".")                         *)
+(*   mid1, leadW            a separator further inside (bits a string "a/b"; width a name): the first component    *)
+(*                          is a word that exists nowhere                                                          *)
+(* Intended: an entry that is not an integer never reaches a path (%d raises TypeError, nothing is opened).        *)
+IllTyped == icase.ext \in {"illclean", "lead1", "mid1", "leadW"}
+\* the sanitised name as a word: what matters is whether  word ++ "."  is a special component
+NameWord == IF icase.src = "inline" THEN "plain"                 \* str(id(obj)): not the document's
+            ELSE IF name.segs = <<>> \/ name.segs = <<"e">> THEN "empty"
+            ELSE IF name.segs = <<"d">> THEN "dot"
+            ELSE "plain"                                         \* (".." ++ "." is "...", a plain word)
+ExtTarget(T) == CASE icase.ext = "lead1" -> (CASE NameWord = "dot" -> Up(T) [] NameWord = "empty" -> T [] OTHER -> Fail)
+                  [] icase.ext \in {"mid1", "leadW"} -> Fail
+                  [] OTHER -> T
+
 \* ImageWriter.export_image -> _create_unique_image_name (exists loop) -> open(path, "wb")
 AExport ==
   /\ phase = "img_name"
-  /\ IF Coded /\ HasNul
+  /\ IF IllTyped /\ "ExtFieldsUnvalidated" \notin Dev        \* "%d" % <not a number>, before any name is built
+     THEN /\ err' = "TypeError" /\ phase' = "done" /\ UNCHANGED <<creates, outfiles, drawn, blame>>
+     ELSE IF Coded /\ HasNul /\ icase.src = "xobj"
      THEN /\ err' = "ValueError" /\ phase' = "done" /\ UNCHANGED <<creates, outfiles, drawn, blame>>   \* embedded null byte
-     ELSE IF ~Coded /\ HasLong
+     ELSE IF ~Coded /\ HasLong /\ icase.src = "xobj"
      THEN /\ err' = "OSError" /\ phase' = "done" /\ UNCHANGED <<creates, outfiles, drawn, blame>>      \* File name too long
-     ELSE IF Coded /\ OpenError # "none"                      \* (a directory above the root exists: a file is created there)
+     ELSE IF Coded /\ OpenError # "none" /\ icase.src = "xobj"  \* (a directory above the root exists: a file is created there)
      THEN /\ err' = OpenError /\ phase' = "done" /\ UNCHANGED <<creates, outfiles, drawn, blame>>
-     ELSE LET k == FirstFree(outfiles) IN
-          /\ creates' = Append(creates, [dir |-> Target, k |-> k, existed |-> k \in outfiles])
-          /\ outfiles' = outfiles \cup {k}
-          /\ drawn' = drawn + 1
-          /\ blame' = IF InOut(Target) THEN blame ELSE blame \cup {"ImageNameUnconfined"}
-          /\ phase' = IF drawn + 1 = icase.draws THEN "done" ELSE "img_name"
-          /\ UNCHANGED err
+     ELSE LET T == ExtTarget(IF icase.src = "inline" THEN Out ELSE Target)
+              \* with a separator in the extension the numbered candidates name.0<ext> ... start with another word
+              k == IF icase.ext \in {"lead1", "mid1", "leadW"} THEN -1 ELSE FirstFree(outfiles)
+          IN IF T = Fail \/ (icase.ext = "lead1" /\ -1 \in outfiles)
+             THEN /\ err' = "FileNotFoundError" /\ phase' = "done" /\ UNCHANGED <<creates, outfiles, drawn, blame>>
+             ELSE /\ creates' = Append(creates, [dir |-> T, k |-> k, existed |-> k \in outfiles])
+                  /\ outfiles' = outfiles \cup {k}
+                  /\ drawn' = drawn + 1
+                  /\ blame' = IF InOut(T) THEN blame
+                              ELSE IF IllTyped THEN blame \cup {"ExtFieldsUnvalidated"} ELSE blame \cup {"ImageNameUnconfined"}
+                  /\ IF icase.ext = "filterill"                 \* the file is open when PDFStream.decode meets the filter
+                     THEN err' = "PDFNotImplementedError" /\ phase' = "done"
+                     ELSE err' = err /\ phase' = IF drawn + 1 = icase.draws THEN "done" ELSE "img_name"
   /\ Keep /\ UNCHANGED <<dirs, reads>>
 
 Next == AStart \/ ATryDir \/ AExport
@@ -233,7 +266,7 @@ Spec == Init /\ [][Next]_vars
 \* every file opened for reading is a resource inside a resource directory (the input is passed in open)
 ReadsConfined == \A r \in reads : InResource(r[1]) \/ blame \cap {"CMapNameUnconfined", "ContainmentByCharacters", "ScreenBeforeStrip", "CheckedAgainstOneDirectory"} # {}
 \* every file created lies inside the output directory
-WritesConfined == \A k \in 1..Len(creates) : InOut(creates[k].dir) \/ "ImageNameUnconfined" \in blame
+WritesConfined == \A k \in 1..Len(creates) : InOut(creates[k].dir) \/ blame \cap {"ImageNameUnconfined", "ExtFieldsUnvalidated"} # {}
 \* a path that exists is never opened for writing
 NeverOverwrite == \A k \in 1..Len(creates) : ~creates[k].existed
 \* two exports never land on the same file
